@@ -643,7 +643,9 @@ Proof.
       (split; [auto|]; split; [auto|]; apply mk_thread_ok; auto).
     + split; [auto|]. constructor; [constructor|auto].
     + split; [auto|]. constructor; [|auto]. apply query_items_ok; auto.
-  - (* PQVisit *) cbn in PO. inv ST. split; [auto|]. split; [auto|]. apply mk_thread_ok; cbn; auto.
+  - (* PQVisit *) cbn in PO. inv ST. split; [auto|]. split; [auto|]. apply mk_thread_ok; auto.
+    destruct o as [| |q0 [k|]| | | |]; cbn; auto.
+    destruct (Nat.eqb (List.length acc) k); cbn; auto. split; [apply PO|auto].
   - (* PQNext *) cbn in PO. destruct PO as [R F]. destruct fr as [|[|[[c pre] q] todo] fr].
     + inv ST. inv F. split; [auto|]. split; [auto|]. apply mk_thread_ok; cbn; auto.
     + inv F. destruct x as [n m]. inv ST. rewrite length_do_rel.
@@ -795,6 +797,7 @@ Proof.
               | match goal with |- context [match get_cont ?a ?b with _ => _ end] => destruct (get_cont a b) end
               | match goal with |- context [match assoc ?a ?b with _ => _ end] => destruct (assoc a b) end
               | match goal with |- context [if Nat.ltb ?a ?b then _ else _] => destruct (Nat.ltb a b) end
+              | match goal with |- context [if Nat.eqb ?a ?b then _ else _] => destruct (Nat.eqb a b) end
               | match goal with |- context [match query_visits ?a ?b with _ => _ end] => destruct (query_visits a b) end
               | match goal with |- context [match query_items ?a ?b ?c with _ => _ end] => destruct (query_items a b c) end
               | match goal with |- context [if heads_all ?a then _ else _] => destruct (heads_all a) end
@@ -804,11 +807,19 @@ Proof.
             cbn -[Nat.ltb hdelete set_cont new_chain] in *; try discriminate).
 Qed.
 
+Lemma visit_override_not_acq o p p' hs :
+  not_acq (TH o p' hs) -> not_acq (TH o (visit_override o p p') hs).
+Proof.
+  intros H. unfold visit_override. destruct p; auto. destruct o; auto.
+  destruct failat; auto. destruct (Nat.eqb (List.length acc) n); auto.
+  intros m. unfold lockop_of. cbn. destruct hs; discriminate.
+Qed.
+
 Lemma tstep_shape b h t h' t' :
   tstep_gen b h t = Some (h', t') ->
   match lockop_of t with
   | LNone => h' = fst (local_step h (tpc t)) /\
-             t' = TH (top t) (snd (local_step h (tpc t))) (held t)
+             t' = TH (top t) (visit_override (top t) (tpc t) (snd (local_step h (tpc t)))) (held t)
   | LRLock n => can_rlock b h n = true /\ h' = do_rlock h n /\
                 t' = TH (top t) (after_lock (tpc t)) ((n, MR) :: held t)
   | LReq n => h' = do_req h n /\ t' = TH (top t) (after_lock (tpc t)) (held t)
@@ -985,8 +996,8 @@ Proof.
   - (* local step *)
     destruct SH as [-> ->].
     pose proof (local_step_mu h (tpc t)) as [SM FM].
-    assert (NA : not_acq (TH (top t) (snd (local_step h (tpc t))) (held t))).
-    { apply local_step_not_acq. destruct t; exact LO. }
+    assert (NA : not_acq (TH (top t) (visit_override (top t) (tpc t) (snd (local_step h (tpc t)))) (held t))).
+    { apply visit_override_not_acq. apply local_step_not_acq. destruct t; exact LO. }
     rewrite (tsum_same (fun t0 => cnt n MR (held t0)) ts i t _ Et) by reflexivity.
     rewrite (tsum_same (fun t0 => cnt n MW (held t0)) ts i t _ Et) by reflexivity.
     rewrite (tsum_same (pcnt n) ts i t _ Et)
@@ -1660,6 +1671,7 @@ Proof.
               | match goal with |- context [match get_cont ?a ?b with _ => _ end] => destruct (get_cont a b) end
               | match goal with |- context [match assoc ?a ?b with _ => _ end] => destruct (assoc a b) end
               | match goal with |- context [if Nat.ltb ?a ?b then _ else _] => destruct (Nat.ltb a b) end
+              | match goal with |- context [if Nat.eqb ?a ?b then _ else _] => destruct (Nat.eqb a b) end
               | match goal with |- context [match query_visits ?a ?b with _ => _ end] => destruct (query_visits a b) end
               | match goal with |- context [match ?x with _ => _ end] => is_var x; destruct x end ];
             cbn -[Nat.ltb hdelete set_cont new_chain] in *; try discriminate; auto).
@@ -1926,6 +1938,7 @@ Proof.
               | match goal with |- context [match get_cont ?a ?b with _ => _ end] => destruct (get_cont a b) end
               | match goal with |- context [match assoc ?a ?b with _ => _ end] => destruct (assoc a b) end
               | match goal with |- context [if Nat.ltb ?a ?b then _ else _] => destruct (Nat.ltb a b) end
+              | match goal with |- context [if Nat.eqb ?a ?b then _ else _] => destruct (Nat.eqb a b) end
               | match goal with |- context [match query_visits ?a ?b with _ => _ end] => destruct (query_visits a b) end
               | match goal with |- context [if heads_all ?a then _ else _] => destruct (heads_all a) end
               | match goal with |- context [match strip_glob ?a with _ => _ end] => destruct (strip_glob a) end
@@ -2024,3 +2037,22 @@ Proof.
   destruct (reach_Inv _ _ R) as [_ [TO _]].
   eapply in_delete_holds_root; [eapply Forall_nth_error; eauto|exact P].
 Qed.
+
+(** a call that has returned -- normally, with an error of its own, or with the
+    error of a failing VisitFunc -- holds no lock *)
+Theorem returned_holds_nothing ops s i t :
+  reach ops s -> nth_error (thr s) i = Some t -> is_done (tpc t) = true -> held t = [].
+Proof.
+  intros R E D. destruct (reach_Inv _ _ R) as [_ [TO _]].
+  destruct (Forall_nth_error _ _ _ _ TO E) as [_ [_ P]].
+  destruct (tpc t); try discriminate. exact P.
+Qed.
+
+(** the error of a failing visitor does abort the query in the model (non-vacuity) *)
+Example failing_visitor_example :
+  let ops := [CAdd ["a"; "b"]%string 1%Z; CQuery ["a"; "b"]%string (Some 0); CDelete ["a"]%string] in
+  let s := run_sched (init_state ops) (repeat 0 40 ++ repeat 1 40 ++ repeat 2 60) in
+  map (fun t => (tpc t, held t)) (thr s)
+  = [(PDone (XAdd true), []); (PDone (XFail [(["a"; "b"]%string, 1%Z)]), []);
+     (PDone (XPaths [["a"; "b"]%string]), [])].
+Proof. vm_compute. reflexivity. Qed.
